@@ -13,7 +13,8 @@ PROPERTY = 'C13'
 ALLOWED_EXCEPTIONS = {}
 ASSUMPTIONS = ['off-diagonal entries are enumerated templates (n = 3 and n = 4), diagonal entries are unconstrained symbolic reals',
                'at most path_cap completed paths per (function, template, options) case are explored; the rest is outside the claim',
-               'functions that reach LAPACK / scipy.sparse or an unsupported NumPy idiom are listed as not encoded in the evidence and are not claimed']
+               'functions that reach LAPACK / scipy.sparse or an unsupported NumPy idiom are listed as not encoded in the evidence and are not claimed',
+               'stub: in pagerank_centrality np.linalg.solve returns an arbitrary vector of positive reals (the property looks only at the arguments afterwards)']
 BOUNDS = {'quick': dict(n='3..4', path_cap=24), 'thorough': dict(n='3..4', path_cap=200)}
 OPTS = {'quick': dict(witnesses_per_case=0, budget_s=120), 'thorough': dict(witnesses_per_case=0, budget_s=900)}
 GUARDS = []
@@ -54,6 +55,7 @@ SPECS = [
  ('diversity_coef_sign', 'centrality', ['M', 'CI'], [{}], SGN), ('gateway_coef_sign', 'centrality', ['M', 'CI'], [{}, {'centrality_type': 'betweenness'}], SGN),
  ('module_degree_zscore', 'centrality', ['M', 'CI'], [{}, {'flag': 2}], UND_W + DIR_W), ('participation_coef', 'centrality', ['M', 'CI'], [{}, {'degree': 'out'}], UND_W + DIR_W),
  ('participation_coef_sign', 'centrality', ['M', 'CI'], [{}], SGN), ('kcoreness_centrality_bu', 'centrality', ['M'], [{}], UND_B), ('kcoreness_centrality_bd', 'centrality', ['M'], [{}], DIR_B),
+ ('pagerank_centrality', 'centrality', ['M', ('const', F(17, 20))], [{}, {'falff': 'FALFF'}], ['wu', 'wd', 'bd_sink', 'bu_iso']),
  ('flow_coef_bd', 'centrality', ['M'], [{}], DIR_B + ['bu']), ('erange', 'centrality', ['M'], [{}], DIR_B),
  ('assortativity_bin', 'core', ['M'], [{}, {'flag': 1}], UND_B + DIR_B), ('assortativity_wei', 'core', ['M'], [{}, {'flag': 1}], UND_W + DIR_W),
  ('kcore_bu', 'core', ['M', ('const', 1)], [{}, {'peel': True}], UND_B), ('kcore_bd', 'core', ['M', ('const', 1)], [{}, {'peel': True}], DIR_B),
@@ -82,6 +84,9 @@ SPECS = [
  ('null_model_und_sign', 'reference', ['M'], [{'bin_swaps': 0, 'wei_freq': 0, 'seed': 'rng'}], ['ws']), ('null_model_dir_sign', 'reference', ['M'], [{'bin_swaps': 0, 'wei_freq': 0, 'seed': 'rng'}], ['ws']),
 ]
 FUNCTIONS = sorted({s[0] for s in SPECS})
+# engine options per function.  pagerank_centrality ends in np.linalg.solve (LAPACK, not encoded): this property only looks at the
+# arguments afterwards, so the solve is replaced by a stub returning an arbitrary vector of positive reals
+FN_CFG = {'pagerank_centrality': dict(linalg_solve_stub=True)}
 
 
 def cases(tier, seed):
@@ -96,7 +101,7 @@ def cases(tier, seed):
                     cs.append(dict(name='%s/%s/%s/%s' % (fn, t, ','.join('%s=%s' % kv for kv in kw.items()) or '-', diag) + ('/' + str(args[1][1]) if len(args) > 1 and isinstance(args[1], tuple) and isinstance(args[1][1], str) else ''),
                                    fn=fn, mod=mod, args=[a if isinstance(a, str) else [a[0], str(a[1]) if isinstance(a[1], Fraction) else a[1]] + list(a[2:]) for a in args],
                                    kw={k: v for k, v in kw.items()}, template=t, path_cap=cap, optional=(diag == 'sym'), diag=diag,
-                                   budget_s=40 if diag == 'sym' else 120))
+                                   budget_s=40 if diag == 'sym' else 120, cfg=FN_CFG.get(fn, {})))
     return cs
 
 
@@ -150,6 +155,7 @@ def body(case, M):
     for k, v in case['kw'].items():
         if v == 'rng': kw[k] = M.rng(budget=24, fork_int=True, fork_perm=True, perm_subset=[[1, 2, 0], [2, 0, 3, 1]])
         elif v == 'CI': c = list(CI[n]); a = M.array(c, 'i'); kw[k] = a; snaps.append((k, a, c))
+        elif v == 'FALFF': c = [_num(x, M) for x in [F(1, 2), F(1, 4), F(3, 4), 1][:n]]; a = M.array(c, 'f'); kw[k] = a; snaps.append((k, a, c))
         else: kw[k] = _num(v, M)
     exc = None
     try:
